@@ -228,3 +228,89 @@ Proof.
   intros Ha Hp Hc Hs Hv. unfold line_count. rewrite Ha, Hp, Hc. cbn [bind].
   rewrite count_nonblank_spec, Hv, Hs. reflexivity.
 Qed.
+
+(* ---------- the accepted language of the constraint parser (converse of the round trip) ---------- *)
+Lemma drop_while_decomp (p : char -> bool) (s : str) :
+  exists a, s = a ++ drop_while p s /\ Forall (fun c => p c = true) a.
+Proof.
+  induction s as [|c s IH]; cbn [drop_while].
+  - exists []. split; [reflexivity|constructor].
+  - destruct (p c) eqn:E.
+    + destruct IH as (a & Hs & Ha). exists (c :: a). split; [cbn [app]; f_equal; exact Hs|constructor; assumption].
+    + exists []. split; [reflexivity|constructor].
+Qed.
+
+Lemma trim_decompose s : exists w1 w3, all_ws w1 /\ all_ws w3 /\ s = w1 ++ trim s ++ w3.
+Proof.
+  unfold trim, trim_end, trim_start.
+  destruct (drop_while_decomp is_ws s) as (w1 & Hs & H1).
+  set (t := drop_while is_ws s) in *.
+  destruct (drop_while_decomp is_ws (rev t)) as (a & Ht & Ha).
+  exists w1, (rev a). split; [exact H1|]. split; [apply Forall_rev; exact Ha|].
+  rewrite <- rev_app_distr, <- Ht, rev_involutive. exact Hs.
+Qed.
+
+Lemma strip_prefix_some p : forall s r, strip_prefix p s = Some r -> s = p ++ r.
+Proof.
+  induction p as [|x p IH]; intros s r H; cbn [strip_prefix] in H.
+  - inversion H. reflexivity.
+  - destruct s as [|y s]; [discriminate|]. destruct (x =? y) eqn:E; [|discriminate].
+    apply N.eqb_eq in E. subst y. cbn [app]. f_equal. apply IH. exact H.
+Qed.
+
+Lemma strip_op_some t op r : strip_op t = Some (op, r) -> t = cop_str op ++ r.
+Proof.
+  unfold strip_op. intros H.
+  destruct (strip_prefix (T "<=") t) eqn:E1; [inversion H; subst; exact (strip_prefix_some _ _ _ E1)|].
+  destruct (strip_prefix (T ">=") t) eqn:E2; [inversion H; subst; exact (strip_prefix_some _ _ _ E2)|].
+  destruct (strip_prefix (T "==") t) eqn:E3; [inversion H; subst; exact (strip_prefix_some _ _ _ E3)|].
+  destruct (strip_prefix (T "<") t) eqn:E4; [inversion H; subst; exact (strip_prefix_some _ _ _ E4)|].
+  destruct (strip_prefix (T ">") t) eqn:E5; [inversion H; subst; exact (strip_prefix_some _ _ _ E5)|].
+  discriminate.
+Qed.
+
+(* Everything the parser accepts has the shape  ws OP ws NUMERAL ws  with a numeral that
+   usize::from_str reads as the bound: there is no other way to obtain (op, n). *)
+Lemma parse_constraint_shape expr op n :
+  parse_constraint expr = Some (op, n) ->
+  exists w1 w2 w3 num, all_ws w1 /\ all_ws w2 /\ all_ws w3 /\ num <> [] /\
+    expr = w1 ++ cop_str op ++ w2 ++ num ++ w3 /\ parse_usize num = Some n.
+Proof.
+  unfold parse_constraint. intros H.
+  destruct (strip_op (trim expr)) as [[o r]|] eqn:Es; [|discriminate].
+  destruct (trim r) as [|c t] eqn:Et; [discriminate|].
+  destruct (parse_usize (c :: t)) as [m|] eqn:Ep; [|discriminate].
+  inversion H; subst o m. clear H.
+  apply strip_op_some in Es.
+  destruct (trim_decompose expr) as (w1 & w3 & H1 & H3 & He).
+  destruct (trim_decompose r) as (w2 & w3' & H2 & H3' & Hr).
+  exists w1, w2, (w3' ++ w3), (c :: t).
+  split; [exact H1|]. split; [exact H2|]. split; [apply Forall_app; split; assumption|].
+  split; [discriminate|]. split; [|exact Ep].
+  rewrite He at 1. rewrite Es. rewrite Hr at 1. rewrite Et. rewrite <- !app_assoc. reflexivity.
+Qed.
+
+Lemma digits_val_some_digits : forall s acc n, digits_val acc s = Some n -> Forall (fun c => is_ascii_digit c = true) s.
+Proof.
+  induction s as [|c s IH]; intros acc n H; [constructor|].
+  cbn [digits_val] in H. destruct (is_ascii_digit c) eqn:E; [|discriminate].
+  constructor; [exact E|exact (IH _ _ H)].
+Qed.
+
+(* the numeral: an optional '+', then one or more ASCII digits whose value is below 2^64 *)
+Lemma parse_usize_shape num n :
+  parse_usize num = Some n ->
+  exists ds, (num = ds \/ num = 43 :: ds) /\ ds <> [] /\
+    Forall (fun c => is_ascii_digit c = true) ds /\ digits_val 0 ds = Some n /\ n < 18446744073709551616.
+Proof.
+  intros H. pose proof (parse_usize_bound _ _ H) as Hb. unfold parse_usize in H.
+  set (d := match num with [] => num | c :: r => if c =? 43 then r else num end) in *.
+  assert (Hd : num = d \/ num = 43 :: d).
+  { subst d. destruct num as [|c r]; [left; reflexivity|].
+    destruct (c =? 43) eqn:E; [right; apply N.eqb_eq in E; subst; reflexivity|left; reflexivity]. }
+  clearbody d. destruct d as [|x xs]; [discriminate|].
+  destruct (digits_val 0 (x :: xs)) as [m|] eqn:Ev; [|discriminate].
+  destruct (m <? 18446744073709551616); [|discriminate]. inversion H; subst m.
+  exists (x :: xs). split; [exact Hd|]. split; [discriminate|].
+  split; [exact (digits_val_some_digits _ _ _ Ev)|]. split; [exact Ev|exact Hb].
+Qed.
